@@ -82,6 +82,22 @@ POWER_WRAPPER_FORMS = {
 }
 
 
+# the two module-level loops, compared for EQUALITY after ast.unparse (an extra statement such
+# as `if name == 'sin': continue` is a changed loop)
+UFUNCS_LOOP = (
+    "for name in RAW_UFUNCS:\n"
+    "    ufunc = getattr(np, name)\n"
+    "    n_in, n_out = (ufunc.nin, ufunc.nout)\n"
+    "    descr = ufunc.__doc__.splitlines()[2]\n"
+    "    descr = re.sub('`+', '``', descr)\n"
+    "    doc = descr + '\\n\\nSee Also\\n--------\\nnumpy.{}\\n'.format(name)\n"
+    "    UFUNCS.append((name, n_in, n_out, doc))")
+REGISTER_LOOP = (
+    "for name, n_in, n_out, doc in UFUNCS:\n"
+    "    method = {wrap}(name, n_in, n_out, doc)\n"
+    "    setattr({cls}, name, method)")
+
+
 def _const_int(node, var):
     """`n_in == 1` -> 1"""
     if isinstance(node, ast.Compare) and len(node.ops) == 1 and isinstance(node.ops[0], ast.Eq) \
@@ -125,16 +141,10 @@ def extract(src):
     if raw is None or wrap is None or tcls is None:
         raise ExtractionError('RAW_UFUNCS / wrap_ufunc_base / TensorSpaceUfuncs not found')
     # the registration loop must use the same names
-    loops = [n for n in tree.body if isinstance(n, ast.For)]
-    want_loop1 = "for name in RAW_UFUNCS:"
-    if not any(_u(l).startswith(want_loop1) and
-               'ufunc = getattr(np, name)' in _u(l) and
-               'n_in, n_out = (ufunc.nin, ufunc.nout)' in _u(l) and
-               'UFUNCS.append((name, n_in, n_out, doc))' in _u(l) for l in loops):
+    loops = [_u(n) for n in tree.body if isinstance(n, ast.For)]
+    if UFUNCS_LOOP not in loops:
         raise ExtractionError('UFUNCS construction loop changed')
-    if not any(_u(l).startswith('for name, n_in, n_out, doc in UFUNCS:') and
-               'method = wrap_ufunc_base(name, n_in, n_out, doc)' in _u(l) and
-               'setattr(TensorSpaceUfuncs, name, method)' in _u(l) for l in loops):
+    if REGISTER_LOOP.format(cls='TensorSpaceUfuncs', wrap='wrap_ufunc_base') not in loops:
         raise ExtractionError('TensorSpaceUfuncs registration loop changed')
     # wrap_ufunc_base
     body = _strip_doc(wrap.body)
@@ -202,10 +212,9 @@ def extract_power(src):
             cls = node
     if wrap is None or cls is None:
         raise ExtractionError('wrap_ufunc_productspace / ProductSpaceUfuncs not found')
-    loops = [n for n in tree.body if isinstance(n, ast.For)]
-    if not any(_u(l).startswith('for name, n_in, n_out, doc in UFUNCS:') and
-               'method = wrap_ufunc_productspace(name, n_in, n_out, doc)' in _u(l) and
-               'setattr(ProductSpaceUfuncs, name, method)' in _u(l) for l in loops):
+    loops = [_u(n) for n in tree.body if isinstance(n, ast.For)]
+    if REGISTER_LOOP.format(cls='ProductSpaceUfuncs', wrap='wrap_ufunc_productspace') \
+            not in loops:
         raise ExtractionError('ProductSpaceUfuncs registration loop changed')
     body = _strip_doc(wrap.body)
     tail = [_u(s) for s in body[1:]]
@@ -260,6 +269,21 @@ def numpy_table():
     return out
 
 
+LEAN_DTYPES = [('bool', 'bool'), ('int8', 'int8'), ('int16', 'int16'), ('int32', 'int32'),
+               ('int64', 'int64'), ('uint8', 'uint8'), ('uint16', 'uint16'),
+               ('uint32', 'uint32'), ('uint64', 'uint64'), ('float16', 'float16'),
+               ('float32', 'float32'), ('float64', 'float64'), ('longdouble', 'longdouble'),
+               ('complex64', 'complex64'), ('complex128', 'complex128'),
+               ('clongdouble', 'clongdouble'), ('object', 'object')]
+
+
+def cancast_table():
+    """np.can_cast (safe) over the dtypes of the model, from the live NumPy."""
+    import numpy as np
+    return [(a, b, bool(np.can_cast(np.dtype(na), np.dtype(nb))))
+            for a, na in LEAN_DTYPES for b, nb in LEAN_DTYPES]
+
+
 def render(raw, rules, reds, table, prules, preds):
     L = []
     L.append('/- GENERATED by tools/extract/ufunc_legacy.py from odl/util/ufuncs.py and the live')
@@ -296,6 +320,13 @@ def render(raw, rules, reds, table, prules, preds):
     L.append('/-- NumPy: `(attribute name np.<name>, ufunc.__name__, nin, nout)`. -/')
     L.append('def npUfuncs : List (String × String × Nat × Nat) := [')
     L.append(',\n'.join('  ("{}", "{}", {}, {})'.format(*t) for t in table))
+    L.append(']')
+    L.append('')
+    L.append('/-- NumPy: `np.can_cast(src, dst)` (safe rule) for every pair of model dtypes. -/')
+    L.append('def npCanCast : List (DType × DType × Bool) := [')
+    L.append(',\n'.join('  ' + ', '.join('(.{}, .{}, {})'.format(a, b, 'true' if v else 'false')
+                                          for a, b, v in cancast_table()[i:i + 4])
+                        for i in range(0, len(LEAN_DTYPES) ** 2, 4)))
     L.append(']')
     L.append('')
     L.append('end OdlModel.Gen.UfuncLegacy')
